@@ -46,8 +46,12 @@ func newEnv(kind string, withP bool) *env {
 		e.p = uni.RLWE(rlwe.ParametersLiteral{LogN: logN, Q: q, P: p, NTTFlag: true})
 	case "rlwe-coef": // ciphertexts kept in the coefficient domain: exercises the non-NTT branches and their buffers
 		e.p = uni.RLWE(rlwe.ParametersLiteral{LogN: logN, Q: q, P: p, NTTFlag: false})
-	case "bgv":
-		bp, err := bgv.NewParametersFromLiteral(bgv.ParametersLiteral{LogN: logN, Q: q, P: p, PlaintextModulus: 97})
+	case "bgv", "bgv-gap2":
+		t := uint64(97) // ≡ 1 mod 2N: plaintext ring = ciphertext ring
+		if kind == "bgv-gap2" {
+			t = 17 // ≡ 1 mod N only: plaintext ring of half the degree (gap 2), the bufB path of the encoder
+		}
+		bp, err := bgv.NewParametersFromLiteral(bgv.ParametersLiteral{LogN: logN, Q: q, P: p, PlaintextModulus: t})
 		if err != nil {
 			panic(err)
 		}
